@@ -10,7 +10,10 @@ package main
 
 import (
 	"fmt"
+	"regexp"
 	"strings"
+
+	"github.com/pentops/j5/lib/id62"
 
 	"github.com/bufbuild/protovalidate-go"
 	"google.golang.org/protobuf/reflect/protoreflect"
@@ -359,6 +362,53 @@ func runC12(cfg *vh.Config) error {
 				break
 			}
 		}
+	}
+	// ---- the regular-expression engine on its own: the Coq parser + derivative matcher
+	// against Go's regexp (which CEL's matches() uses), on expressions of the fragment,
+	// on ill-formed ones, and on texts around their languages
+	rr := cfg.R.Fork("C12Re")
+	for i, n := 0, cfg.Scale(260, 4000); i < n; i++ {
+		var pat string
+		switch {
+		case i < len(patterns):
+			pat = patterns[i]
+		case i < len(patterns)+len(badPatterns):
+			pat = badPatterns[i-len(patterns)]
+		case i == len(patterns)+len(badPatterns):
+			pat = id62.PatternString
+		case rr.Chance(15):
+			pat = genBadPattern(rr)
+		default:
+			pat = genPattern(rr)
+		}
+		re, cerr := regexp.Compile(pat)
+		var pairs []string
+		var shown []map[string]any
+		if cerr == nil {
+			texts := patternTexts(rr, pat)
+			if _, ok := patAST[pat]; !ok {
+				texts = patternStrings(rr, pat)
+			}
+			for _, s := range texts {
+				m := re.MatchString(s)
+				evals++
+				pairs = append(pairs, fmt.Sprintf("(%s, %s)", vh.RunesTerm(s), vh.BoolTerm(m)))
+				if len(shown) < 5 {
+					shown = append(shown, map[string]any{"text": s, "match": m})
+				}
+				if m {
+					res.Count("regex-match")
+				} else {
+					res.Count("regex-nomatch")
+				}
+			}
+			res.Count("regex-compiles")
+		} else {
+			res.Count("regex-refused")
+		}
+		cf.Terms = append(cf.Terms, fmt.Sprintf("C12Re %s %s [%s]", vh.RunesTerm(pat), vh.BoolTerm(cerr == nil), strings.Join(pairs, ";")))
+		res.Cases = append(res.Cases, vh.CaseRec{Case: caseNo, Stream: "regex", Input: map[string]any{"pattern": pat}, Impl: map[string]any{"compiles": cerr == nil, "matches": shown}})
+		caseNo++
 	}
 	res.Evaluations = evals
 	res.Distinct = len(distinct)
